@@ -1,5 +1,6 @@
 import CM.Proofs.InlineSerInlHtml
 import CM.Proofs.InlineSerExamples
+import CM.Proofs.InlineSerEmInl
 /-
 C06, the denotation theorem for FLAT paragraphs, end to end (17 proof files `InlineSer*`: a compositional, total-correctness
 treatment of the tokenizer of `Model/Inlines.lean` - a sequencing lemma `Seg.trans` for self-contained constructs, 13 step
@@ -25,5 +26,24 @@ theorem flat_paragraph_correct (x : PExt) (ix : IExt) (ks : List Inl) (h : FlatO
       ∀ (cx : RCtx) (dst : Bytes), PlainCx cx → cx.src = r.source →
         appendBlock cx dst t = dst ++ denoteBlk { eol := [LF] } false (.para ks) :=
   InlSer.flat_paragraph_correct x ix ks h hh hpara
+
+/-- **Emphasis and strong emphasis, end to end** (7 further files `InlineSerWrap`, `InlineSerEm*`: `wrap` and `processEmphasis`
+    as equations on the arena): for every non-empty flat item list `ks`, the paragraph `*ks*` / `**ks**` parses to one paragraph and
+    renders as exactly `denoteBlk (.para [.emph ks])` / `(.para [.strong ks])`, given the flanking flags of the two delimiter runs
+    (a pure function of the serialised bytes and the Unicode tables) and the block phase's line test. -/
+theorem emph_paragraph_correct (x : PExt) (ix : IExt) (strong : Bool) (ks : List Inl) (hne : ks ≠ [])
+    (hk : ∀ k ∈ ks, ItemOK ix.ext k) (hh : ∀ k ∈ ks, HtmlOK k) :
+    let n := if strong then 2 else 1
+    let d : Blk := .para [if strong then .strong ks else .emph ks]
+    let l := emLineOf n ks
+    emphasisFlags ix.u l.bytes l.p (l.p + l.n) = (true, false) → (emphasisFlags ix.u l.bytes l.q (l.q + l.n)).2 = true →
+    paraFirstOK l.text = true →
+    (serInls [] [LF] [] [if strong then .strong ks else .emph ks]).1 ++ [LF] = l.bytes ∧
+    ∃ (r : Root) (t : Tree),
+      (parseDoc x ix l.bytes).roots = [{ root := r, tree := .ok t }] ∧ (parseDoc x ix l.bytes).ending = .err .eof ∧
+      r.source = l.bytes ∧
+      ∀ (cx : RCtx) (dst : Bytes), PlainCx cx → cx.src = r.source →
+        appendBlock cx dst t = dst ++ denoteBlk { eol := [LF] } false d :=
+  InlSer.emph_paragraph_correct x ix strong ks hne hk hh
 
 end CM.Props.C06
